@@ -32,6 +32,8 @@ def measure(repo, cpp_rel, asm_rel, scratch):
             if alias[a] not in addr or alias[b] not in addr:
                 raise AsmSizeError("symbol for %s or %s not found in assembled object" % (a, b))
             sizes[name] = addr[alias[a]] - addr[alias[b]]
+    if "randomx_prefetch_scratchpad_end" in addr and "randomx_prefetch_scratchpad" in addr:
+        sizes["prefetchScratchpadSize"] = addr["randomx_prefetch_scratchpad_end"] - addr["randomx_prefetch_scratchpad"]
     if len(sizes) < 10:
         raise AsmSizeError("only %d blob sizes recognised in %s" % (len(sizes), cpp_rel))
     return sizes
@@ -40,5 +42,6 @@ def measure(repo, cpp_rel, asm_rel, scratch):
 def header(sizes):
     out = ["/* generated on this run from the assembled src/jit_compiler_x86_static.S (nm symbol distances) */", "#include <stdint.h>"]
     for k, v in sorted(sizes.items()):
-        out.append("static const int32_t %s = %d;" % (k, v))
+        # enum constants (type int == int32_t here): usable in other static initialisers regardless of initialisation order
+        out.append("enum { %s = %d };" % (k, v))
     return "\n".join(out) + "\n"
